@@ -1,4 +1,5 @@
 """C16 - diagnostics always locate inside the source and always render."""
+import json
 import os
 import re
 import tempfile
@@ -407,7 +408,47 @@ def render_check(case, data, files, ext, err, primary, sources):
     return nt
 
 
+# std.trace reports go through the same renderer (on a *successful* run): same positions, exit status 0
+TRACED = ["std.trace('m',\n1)", "std.trace(\n'm' +\n'n',\n[1,\n2])", "[std.trace('a\u0301\u200b', 1), std.trace('\ufeff', 2)]", "{ a: std.trace('x', 1),\n\n b: std.trace(\n'y', 2) }",
+          "local f(x) = std.trace('in f',\n x);\nf(\n3)", "std.trace('\U000e0100' + '\t', '\u4e2d')"]
+
+
+def enum_traced(tier, worker, nworkers):
+    k = 0
+    for li, line in enumerate(LINES):
+        for ci in range(len(TRACED)):
+            if k % nworkers == worker:
+                yield {"line": line, "construct": ci, "color": bool((li + ci) % 2)}
+            k += 1
+
+
+def check_traced(case):
+    src = ("\n" * (case["line"] - 1) + TRACED[case["construct"]]).encode("utf-8")
+    with tempfile.TemporaryDirectory(prefix="c16t-") as d:
+        with open(os.path.join(d, "main.jsonnet"), "wb") as f:
+            f.write(src)
+        rc, out, errb = run_cli(["main.jsonnet"], cwd=d, env={} if not case["color"] else {"NO_COLOR": ""})
+    text = errb.decode("utf-8", "replace")
+    what = f"std.trace construct {case['construct']} starting on line {case['line']} (colour={case['color']})"
+    for m in PANIC_MARKERS:
+        if m in text:
+            raise Violation("trace-render-panic", f"rendering a std.trace report panicked: {what}: {text[-300:]}")
+    if rc != 0:
+        raise Violation(f"trace-render-exit:{rc}", f"a program that only traces exits {rc}: {what}: {text[-300:]}")
+    if "TRACE:" not in ANSI_RE.sub("", text):
+        raise Violation("trace-render-missing", f"no TRACE report on stderr: {what}: {text[:200]!r}")
+    m = LOC_RE.search(ANSI_RE.sub("", text))
+    if m and int(m.group(2)) < case["line"]:
+        raise Violation("trace-render-line", f"the first TRACE report names line {m.group(2)}, the program starts on line {case['line']}: {what}")
+    try:
+        json.loads(out)
+    except ValueError:
+        raise Violation("trace-render-stdout", f"stdout is not the value: {what}: {out[:100]!r}")
+    return {"nontrivial": True, "labels": [f"line{case['line']}"], "sample": what}
+
+
 CHECKS = [
+    Check("trace_reports_render", check_traced, enumerate_fn=enum_traced),
     Check("span_manager_roundtrip", check_spans, span_case, quick=400, thorough=15000),
     Check("error_spans_and_rendering", check_failing, failing_case, quick=250, thorough=8000),
     Check("stray_characters_render", check_failing, enumerate_fn=enum_stray),
